@@ -332,10 +332,18 @@ def coq_make(targets=(), timeout=3000):
             if q.returncode == 0:
                 return True, "(up to date)"
     with flock("coqmake"):
-        coq_refresh_makefile()
-        cmd = ["timeout", str(timeout), "make", "-j%d" % NCPU] + list(targets)
-        p = sh(cmd, cwd=COQ)
-        log = p.stdout.decode("utf8", "replace") + p.stderr.decode("utf8", "replace")
+        for attempt in range(3):
+            coq_refresh_makefile()
+            cmd = ["timeout", str(timeout), "make", "-j%d" % NCPU] + list(targets)
+            p = sh(cmd, cwd=COQ)
+            log = p.stdout.decode("utf8", "replace") + p.stderr.decode("utf8", "replace")
+            if p.returncode != 0 and "No rule to make target" in log:
+                # a source file listed in _CoqProject vanished (transient file of a concurrent writer): rebuild the file list
+                for fn in ("_CoqProject", ".Makefile.d"):
+                    try: os.remove(os.path.join(COQ, fn))
+                    except OSError: pass
+                continue
+            break
         return p.returncode == 0, log
 
 def coq_compile_log(vfile, timeout=1200):
@@ -449,6 +457,10 @@ class Run:
         self.dist = {}
         os.makedirs(os.path.join(VERIF, "evidence"), exist_ok=True)
         os.makedirs(os.path.join(VERIF, "replays"), exist_ok=True)
+        for fn in os.listdir(os.path.join(VERIF, "replays")):      # replays of earlier runs of this property are stale
+            if fn.startswith(pid + "_"):
+                try: os.remove(os.path.join(VERIF, "replays", fn))
+                except OSError: pass
 
     # ---- counting
     def case(self, canon, nontrivial=True, sample=None):
@@ -570,7 +582,7 @@ def batch_compile(reqs, nproc=None, timeout=600):
             if done < len(todo):
                 # the process died (fatal error / os.Exit / timeout) while handling todo[done]
                 r = todo[done]
-                res[r["id"]] = dict(ok=False, panic="process died rc=%s: %s" % (rc, err[-1500:]), out="")
+                res[r["id"]] = dict(ok=False, panic="process died rc=%s: %s ... %s" % (rc, err[:1200], err[-600:]), out="")
                 todo = todo[done + 1:]
             else:
                 todo = []
